@@ -160,6 +160,30 @@ pub fn run(thorough: bool, seed: u64, _replay: Option<String>) -> Report {
             }
         }
     }
+    // ---- (a1) every single byte value under every encoding, between two ASCII letters, strict mode, test-only on and off:
+    //      an answer that depends on one particular byte value of one code page shows up here
+    for enc in &sup {
+        let codec = encoding_from_whatwg_label(enc).unwrap();
+        for b in 0..=255u32 {
+            let input = [b'a', b as u8, b'z'];
+            let want = codec.decode(&input, DecoderTrap::Strict).ok();
+            for only_test in [false, true] {
+                let got = std::panic::catch_unwind(|| decode(&input, enc, DecoderTrap::Strict, only_test, false));
+                rep.evaluations += 1;
+                rep.oracle_checked += 1;
+                let expect = if only_test { want.as_ref().map(|_| String::new()) } else { want.clone() };
+                match got {
+                    Err(_) => rep.fail("oracle", "C17:helper-panicked", &format!("{} strict only_test={}", enc, only_test), &input, None, enc),
+                    Ok(got) => {
+                        if got.ok() != expect {
+                            rep.fail("oracle", if only_test { "C17:test-only-mode-differs" } else { "C17:helper-differs-from-codec" }, &format!("{} strict only_test={} on byte {:02x} between two letters", enc, only_test, b), &input, None, enc);
+                        }
+                    }
+                }
+            }
+        }
+    }
+    rep.count("helper:every-single-byte-value");
     // ---- (a-h) the helper is a function of its arguments – not of the calls before it: an input that leaves a decoder in
     //      the middle of something (inside a shifted run, after a lead byte, half a code unit, an open escape sequence) and is
     //      rejected or cut there, then ordinary inputs in the same encoding, each compared with the codec on its own
@@ -168,7 +192,9 @@ pub fn run(thorough: bool, seed: u64, _replay: Option<String>) -> Report {
             (
                 "iso-2022-jp",
                 vec![b"abc \x1b$B$3$l\xe9".to_vec(), b"\x1b(I1234\xff".to_vec(), b"\x1b$(D\x22\x2f\x80".to_vec(), b"\x1b$B$3$".to_vec(), b"\x1b$B\x7f\x7f".to_vec(), b"x\x1b$".to_vec(), b"\x1b(Jabc\x80".to_vec()],
-                vec![b"1234 plain ascii".to_vec(), b"0!0!".to_vec(), b"\x1b$B$3$s$K$A$O\x1b(B ok".to_vec(), b"$3$l".to_vec(), b"\\~".to_vec()],
+                vec![b"1234 plain ascii".to_vec(), b"0!0!".to_vec(), b"\x1b$B$3$s$K$A$O\x1b(B ok".to_vec(), b"$3$l".to_vec(), b"\\~".to_vec(),
+                     // escape sequences cut at every length at the very end (the problem is reported at different distances from the end)
+                     b"abc\x1b".to_vec(), b"abc\x1b$".to_vec(), b"abc\x1b$(".to_vec(), b"abc\x1b(".to_vec(), b"\x1b$B$3\x1b$(".to_vec(), b"abc\x1b$(x".to_vec(), b"abc\x1b$x".to_vec()],
             ),
             ("euc-jp", vec![b"abc\xa4".to_vec(), b"\x8f\xb0".to_vec(), b"\x8e".to_vec(), b"\xa4\xff".to_vec()], vec![b"plain".to_vec(), b"\xa4\xb3\xa4\xf3".to_vec(), b"\xa2".to_vec()]),
             ("shift_jis", vec![b"abc\x82".to_vec(), b"\x82\xff".to_vec(), b"\xfc\xfc".to_vec()], vec![b"plain".to_vec(), b"\x82\xb1\x82\xf1".to_vec(), b"\xa0".to_vec()]),
@@ -206,7 +232,10 @@ pub fn run(thorough: bool, seed: u64, _replay: Option<String>) -> Report {
                                         Err(_) => rep.fail("oracle", "C17:helper-panicked", &format!("{} {} after {}", enc, trap_name(*t2), hex(first)), second, None, enc),
                                         Ok(got) => {
                                             if got.clone().ok() != expect {
-                                                rep.fail("oracle", "C17:helper-depends-on-the-call-before", &format!("{} trap={} only_test={} right after decode({}, trap={}, chunk={}): helper {:?} codec {:?}", enc, trap_name(*t2), only_test, hex(first), trap_name(*t1), chunk1, got.ok(), expect), second, None, enc);
+                                                // asked again right away (the call before it is now the same harmless one): still wrong = wrong on its own
+                                                let again = std::panic::catch_unwind(|| decode(second, enc, *t2, only_test, false)).ok().and_then(|r| r.ok());
+                                                let class = if again != expect { "C17:helper-differs-from-codec" } else { "C17:helper-depends-on-the-call-before" };
+                                                rep.fail("oracle", class, &format!("{} trap={} only_test={} right after decode({}, trap={}, chunk={}): helper {:?} codec {:?}", enc, trap_name(*t2), only_test, hex(first), trap_name(*t1), chunk1, got.ok(), expect), second, None, enc);
                                             }
                                         }
                                     }
